@@ -82,6 +82,17 @@ func genBattle(t *rapid.T, maxW int, bigOffsets bool) battleCase {
 		}
 		c.Offs = append(c.Offs, off)
 	}
+	if m <= 24 && rapid.IntRange(0, 11).Draw(t, "oversize") == 0 {
+		// a warrior longer than the core: AddWarrior and SpawnWarrior accept it, and loading goes
+		// round the core once or twice, the later instructions replacing the earlier ones
+		k := rapid.IntRange(0, n-1).Draw(t, "overwho")
+		l := m + rapid.IntRange(0, m+3).Draw(t, "over")
+		code := make([]ref.Instr, l)
+		for i := range code {
+			code[i] = gen.Instr(m).Draw(t, "ins")
+		}
+		c.Ws[k] = ref.Warrior{Code: code, Start: rapid.IntRange(0, l-1).Draw(t, "start")}
+	}
 	if m <= 64 && n <= 3 && gen.Rare(t, "longbattle", 9) {
 		// thousands of cycles with a splitter that cannot die and a process limit in the
 		// hundreds or thousands: queues pass 256, 1024, ... entries while their heads move
@@ -336,7 +347,7 @@ func compactBattle(c battleCase) any {
 	return map[string]any{"cfg": c.Cfg, "warriors": ws}
 }
 
-const c02Rule = "rapid draws 1..4 warriors (length 1..6, any of the 7616 forms, entry point anywhere), load offsets anywhere (overlap allowed), core size 3..60 mostly plus 80/800/8000, process limit 1..16, cycle limit 1..500; gmars is stepped with RunCycle next to the reference scheduler and after every cycle the return value, executed (warrior,pc) list from WarriorTaskPop reports, every queue, alive flag, living count, cycle count and the whole core are compared; the same simulator is then Reset, the warriors spawned at permuted offsets and a second battle compared the same way; a fresh simulator's Run() must end in the first battle's final state. Non-trivial: a warrior dies while another lives, a push is dropped at the process limit, >=3 warriors, a warrior writes into another's loaded code, or the battle ends at the cycle limit with survivors; distinct by hash of the case."
+const c02Rule = "rapid draws 1..4 warriors (length 1..6, any of the 7616 forms, entry point anywhere; one small-core battle in twelve has a warrior of M..2M+3 instructions, which the simulator loads round the core), load offsets anywhere (overlap allowed), core size 3..60 mostly plus 80/800/8000, process limit 1..16, cycle limit 1..500; gmars is stepped with RunCycle next to the reference scheduler and after every cycle the return value, executed (warrior,pc) list from WarriorTaskPop reports, every queue, alive flag, living count, cycle count and the whole core are compared; the same simulator is then Reset, the warriors spawned at permuted offsets and a second battle compared the same way; a fresh simulator's Run() must end in the first battle's final state. Non-trivial: a warrior dies while another lives, a push is dropped at the process limit, >=3 warriors, a warrior writes into another's loaded code, or the battle ends at the cycle limit with survivors; distinct by hash of the case."
 
 func TestC02(t *testing.T) {
 	hx.Run(t, hx.Prop[battleCase]{
